@@ -79,8 +79,10 @@ def check_index_map_validity(im, space) :
 
     #check that coarse graining doesnt mix different environments
     env = space.get_cell_env_array()
-    env_out = [-2 for i in range(min(im), max(im)+1)]
+    env_out = [-2 for i in range(0, max(im)+1)]
     for i in range(space.size()) :
+        if im[i] == -1 :
+            continue
         if env_out[im[i]] == -2 :
             env_out[im[i]] = env[i]
         elif env_out[im[i]] == env[i] : 
